@@ -110,6 +110,7 @@ DoCreateAsk   == st.cfg.set /\ (\E r \in AskReqs : Step(r)) /\ Small(st')
 DoCreateBid   == st.cfg.set /\ (\E r \in BidReqs : Step(r)) /\ Small(st')
 DoApprove     == st.cfg.set /\ \E r \in ApproveReqs(st) : Step(r)
 DoExit        == st.cfg.set /\ \E r \in ExitReqs : Step(r)
+DoQuery       == \E r \in {RQuery("query_cfg", ""), RQuery("query_ver", ""), RQuery("query_ask", "a1"), RQuery("query_bid", "b1")} : Step(r)
 
-Next == DoInstantiate \/ DoCreateAsk \/ DoCreateBid \/ DoApprove \/ DoExit
+Next == DoInstantiate \/ DoCreateAsk \/ DoCreateBid \/ DoApprove \/ DoExit \/ DoQuery
 =============================================================================
